@@ -164,6 +164,24 @@ def extract():
     if not re.search(r"Some\(ctx\) => self\.handler\.handle_with_ctx\(req, ctx\)", nx) or not re.search(r"None => self\.handler\.handle\(req\)", nx): good = False
     if not re.search(r"self\.middlewares\.split_first\(\)", nx): good = False
     f["nextForwardsCtx"] = good
+    # ---- the two TCP servers echo the query of the request in hand
+    def echo_ok(conn):
+        c = " ".join(conn.split())
+        if len(re.findall(r"response_echo_query\(", c)) != 1: return False
+        m = re.search(r"let (\w+) = (?:crate::message::)?response_echo_query\( ?&(\w+), (\w+)\.query,? ?\);", c)
+        if not m: return False
+        echo, resp, view = m.groups()
+        # the view is the one parsed from the current read buffer, the response the one just routed from it
+        if not re.search(rf"let {view} = MessageView::from_slice\(&buf\)\?;", c): return False
+        if not re.search(rf"if let Some\({resp}\) = route_request_view\(&router, &{view}\)", c): return False
+        # `echo` must reach the writer untouched: bound once, never assigned, used at least once
+        if len(re.findall(rf"\blet (?:mut )?{echo}\b", c)) != 1: return False
+        rest = c.replace(m.group(0), "")
+        if re.search(rf"\b{echo}\s*=[^=]", rest): return False
+        return len(re.findall(rf"\b{echo}\b", rest)) >= 1
+    srv_conn = fn_body(src, "handle_connection")
+    asrc = test_mod_cut(strip(read("src/async_server.rs")))
+    f["serversEchoViewQuery"] = echo_ok(srv_conn) and echo_ok(fn_body(asrc, "handle_connection"))
     # the trait default itself
     tr = impl_block(src, r"pub trait HandlerErased\s*:\s*Send \+ Sync\s*\{")
     if not re.fullmatch(r"\s*self\.handle_with_ctx\(&view\.to_message\(\), ctx\)\s*", fn_body(tr, "handle_view")): raise ExtractError("HandlerErased::handle_view default not recognised")
@@ -192,7 +210,8 @@ def render(f):
     L.append(f"    nextForwardsCtx := {b(f['nextForwardsCtx'])},")
     L.append(f"    structGate := {gate_s(f['structGate'])},")
     L.append(f"    structEmptyBodyIsRead := {b(f['structEmptyBodyIsRead'])},")
-    L.append(f"    adapterGate := {gate_s(f['adapterGate'])} }}")
+    L.append(f"    adapterGate := {gate_s(f['adapterGate'])},")
+    L.append(f"    serversEchoViewQuery := {b(f['serversEchoViewQuery'])} }}")
     L.append("end Repe.Gen")
     return "\n".join(L) + "\n"
 
